@@ -17,6 +17,7 @@ CLAIMED = {
     "C05": ("Theorems for all w>=1, n>=1 and every amount: shl = x*2^s mod 2^BITS, shr = floor(x/2^s) (sign-propagating for signed), checked None / strict panic / overflowing flag <-> s >= BITS, unbounded forms, power-of-two widths use s mod BITS; rotate_left/right are the cyclic rotation by n mod BITS for EVERY width and inverse to each other (37 theorems, Props/C05.lean). The rotation theorem holds because of the fix: commit a393892 in /repo; the check found the defect on the unchanged tree.", TECH, "7 C05"),
     "C06": ("Theorems for all w (power-of-two digit widths where the code uses shifts/masks for index arithmetic), n>=1: and/or/xor/not per bit, count_ones/zeros, leading/trailing zeros/ones, bits, bit/set_bit with their exact panic range, power_of_two, is_power_of_two, checked/wrapping/next_power_of_two (per build mode), reverse_bits and swap_bytes as bit/byte reversals and involutions (33 theorems, Props/C06.lean).", TECH, "7 C06"),
     "C07": ("Theorems for all w>=1, n>=1: cmp = compare of the denoted values (unsigned and two's complement), eq <-> identical digit arrays <-> equal values (canonical representation), lt/le/gt/ge/min/max/clamp (panic iff min > max), signum/is_positive/is_negative; hashing is modelled as a function of the digit array, so hash congruence is by injectivity (25 theorems, Props/C07.lean).", TECH, "7 C07"),
+    "C14": ("Theorems for every float format satisfying F.Valid (binary32 and binary64 are instances), every width and both build modes: int -> float returns the encoding of rne_p(v) (proved to be THE nearest p-bit value, ties to even mantissa, exact when it fits) or +infinity on overflow, sign-symmetric for signed sources, never panics; float -> int maps NaN to 0, truncates toward zero and saturates at MIN/MAX (unsigned: negatives to 0, infinities to the bounds) (26 theorems, Props/C14.lean). Floats are bit patterns; the bnum-integer operations inside the generic cast code are composed at value level (their digit-level proofs are C05/C06). The full float->int theorem holds because of the fix: commit e77dd54 in /repo; the check found the defect on the unchanged tree.", TECH, "7 C14"),
     "C15": ("Theorems for every digit byte width 2^k, n>=1 and both target endiannesses: from_be_slice/from_le_slice return Some(v) iff the byte string denotes a representable value (unsigned and two's complement with sign from the most significant byte), zero/sign extension of short slices, long slices accepted iff the excess is pure padding, never panic for any length; to_be/to_le/from_be/from_le swap exactly when the target differs; to/from_{be,le,ne}_bytes are exact inverses producing the two's-complement bytes (35 theorems, Props/C15.lean). The *_bytes methods are exercised through a `cargo +nightly --features nightly` harness build.", TECH, "7 C15"),
     "C20": ("Theorems: every sample_single(_inclusive)/Uniform::new(_inclusive)/gen_range result lies in the requested range (signed ranges through the unsigned twin), panic iff the range is empty, accepted RNG words map onto the range with the same number of preimages per value for BOTH zone formulas, Standard is the little-endian value of the next BYTES stream bytes (surjective), fill = generating each element in turn (35 theorems, Props/C20.lean). The RNG is a scripted byte stream; rand's own plumbing (Rng::gen/fill/gen_range down to try_fill_bytes) is modelled, not verified.", TECH, "7 C20"),
 }
